@@ -38,12 +38,17 @@ ASSUMPTIONS = [
 ]
 TECHNIQUE = ("Lean 4 theorems about a line-by-line model of loadMetadata/filterTopics/buildProxyMetadataResponse/"
              "handleFindCoordinator/buildNotReadyResponse; differential correspondence through the real handleMetadata "
-             "byte path + the theorems' own predicates evaluated by the Lean driver on the implementation's replies")
+             "byte path + the theorems' own predicates evaluated by the Lean driver on the implementation's replies; "
+             "session model (current snapshot + ghost topic-name cache) with every history quantified, exercised as "
+             "sessions on one real proxy (snapshot change / real cache refresh / request)")
 LEVEL_TEXT = ("proof: for every snapshot, request form and advertised address the reply names only node 0 (broker list, "
               "controller, leader, replicas, ISR, coordinator) and its topic list equals the declaratively specified one "
-              "(all / by name / by id) on name, id, error code, is-internal and per-partition id, error code, leader epoch")
+              "(all / by name / by id) on name, id, error code, is-internal and per-partition id, error code, leader epoch; "
+              "for every history of one proxy (snapshot changes, cache refreshes, earlier requests) the reply is that of the "
+              "snapshot in force and is independent of the proxy's topic-name cache")
 LEVEL_NOTE = ("the theorems are about the model (after fixes/C28-metadata-error-topic-leaders.patch; the code as found is "
-              "kept as buildResponseOld with the witness old_violates); correspondence and monitor are testing")
+              "kept as buildResponseOld with the witness old_violates); correspondence and monitor are testing; that the "
+              "code's loadMetadata reads no per-proxy state is established by the session runs, not extracted from the source")
 BUILDS = {"h": ("root", "./cmd/proxy", ["C28"])}
 
 NODE_IDS = [0, 1, 2, 3, 7, 100, -1]
@@ -319,15 +324,16 @@ def run_monitor(ck, ops, impl, tag):
     fn = ck.path("mon_%s.txt" % tag)
     open(fn, "w").write("\n".join(lines) + "\n")
     out = ck.lean_run("C28", fn, args=["--monitor"])
-    verdicts, j = [], 0
+    model, verdicts, j = [], [], 0
     for o in ops:
+        model.append(out[j])       # the model's own output for the op (same as a run without --monitor)
         j += 1
         if is_reply_op(o):
             verdicts.append(out[j])
             j += 1
         else:
             verdicts.append("-")
-    return verdicts
+    return model, verdicts
 
 
 def context_ops(ops, i):
@@ -411,15 +417,15 @@ def run(ck):
     if crash:
         ck.broke("implementation harness did not answer every op", crash)
         return
-    model = ck.lean_run("C28", fn)
-    verdicts = run_monitor(ck, ops, impl, "all")
+    model, verdicts = run_monitor(ck, ops, impl, "all")
     ck.cov["traces_validated_against_impl"] += ncases
     d = examine(ck, ops, impl, model, verdicts)
     if d is not None:
         ck.cov["disagreements_checked"] += 1
         ck.broke("correspondence model/implementation (proxy metadata path)",
                  "ops %r\nimpl : %s\nmodel: %s" % (context_ops(ops, d), impl[d], model[d]))
-        hunt(ck, binary)
+        if not ck.violations:      # a concrete failing input is already on file otherwise
+            hunt(ck, binary)
 
 
 def hunt(ck, binary):
@@ -431,7 +437,7 @@ def hunt(ck, binary):
         fn, impl, crash = run_impl(ck, binary, ops, "hunt%d" % rnd)
         if crash:
             return
-        verdicts = run_monitor(ck, ops, impl, "hunt%d" % rnd)
+        _, verdicts = run_monitor(ck, ops, impl, "hunt%d" % rnd)
         examine(ck, ops, impl, None, verdicts, hunting=True)
         if ck.violations:
             return
@@ -447,8 +453,7 @@ def replay(ck, path):
     if crash:
         ck.broke("implementation harness did not answer every op", crash)
         return
-    model = ck.lean_run("C28", fn)
-    verdicts = run_monitor(ck, ops, impl, "replay")
+    model, verdicts = run_monitor(ck, ops, impl, "replay")
     for o, r, m, v in zip(ops, impl, model, verdicts):
         print("  op    %s\n  impl  %s\n  model %s\n  spec  %s" % (o, r, m, v))
     examine(ck, ops, impl, model, verdicts)
